@@ -37,8 +37,8 @@ CLAIMED = {
     "C03": ("generated close histories (explicit / end of exec / reference drop, exec and sub channels) on an in-process gateway pair under the deterministic scheduler; transcript + state oracle + wire parse; focused exhaustive single preemption inside the close/receive functions",
             "Generated conversations in which one side sends items and then closes a channel in one of the three ways while the peer has several blocked receivers and waitclose callers; executed with both ends in-process under generated schedules and line-level preemption. The oracle requires exact, ordered delivery of everything sent before the close, repeated EOFError for every receiver, waitclose returning, the documented post-close state (send OSError, isclosed, immediate waitclose, harmless second close with no second frame on the wire) on the closing side at once and on the peer once it observed the close.",
             "Sampling of schedules; the focused single-preemption enumeration is complete only in the thorough tier (strided in quick). 'sendonly' after dropping a channel with a callback is treated as documented.", "3/C03"),
-    "C07": ("generated failure positions in conversation programs (raising exec bodies and raising callbacks on either side, exec and sub channels, dropped channel objects, healthy siblings) under the deterministic scheduler; transcript oracle; focused exhaustive single preemption in the error-propagation functions",
-            "Generated programs with one or two failing conversations and up to two healthy siblings run with both gateway ends in-process under generated schedules; the oracle requires all earlier items, exactly one RemoteError with type/message/traceback text, EOFError afterwards, a proper error on the failing side's own channel, untouched sibling transcripts and a gateway that still executes a fresh remote_exec.",
+    "C07": ("generated failure positions in conversation programs (raising exec bodies and raising callbacks on either side, exec and sub channels, dropped channel objects, healthy siblings) under the deterministic scheduler; transcript oracle; focused exhaustive single preemption in the error-propagation functions; generated failure sequences under every gw.reconfigure() setting on a real worker",
+            "Generated programs with one or two failing conversations and up to two healthy siblings run with both gateway ends in-process under generated schedules; the oracle requires all earlier items, exactly one RemoteError with type/message/traceback text, EOFError afterwards, a proper error on the failing side's own channel, untouched sibling transcripts and a gateway that still executes a fresh remote_exec. Part reconf repeats raising bodies / raising remote callbacks under all four string-coercion settings of the gateway on a real popen worker.",
             "Sampling of schedules; focused single-preemption enumeration complete for scenarios up to 1200 focus lines. For a dropped channel with a callback the documented 'sendonly' state limits what the peer can observe.", "3/C07"),
     "C10": ("generated moments of setcallback relative to in-flight items and to the peer's close, stream ends by close / end of exec / raising body, MultiChannel receive queues; deterministic scheduler with generated schedules and focused exhaustive single preemption; sequence oracle",
             "Generated conversations switch a consumer from receive() to a callback before, between or after the items and after the peer's close, with and without endmarker, on exec and sub channels on either side, plus MultiChannel.make_receive_queue over 2-4 members; both gateway ends run in-process under generated schedules. The oracle demands items-by-receive + callback log == sent sequence exactly, one endmarker last iff requested, and refusal of receive()/second setcallback afterwards. Connection loss as stream end is covered by C04.",
@@ -57,12 +57,12 @@ CLAIMED = {
             "Real part: OS schedule not owned, bound 25 s vs. 15 s ladder. In-process part: a busy loop cannot be modelled (a spinning managed thread never yields), SIGINT delivery is recorded, not performed.", "3/C11"),
     "C06": ("grammar-generated remote programs in three forms (string, function with generated kwargs, module) executed on real popen/socket/via/main_thread_only gateways; differential oracle against a local interpretation with a recording channel; traceback line oracle; generated must-reject function shapes with a wire/byte-count oracle",
             "Programs generated from a statement grammar (sends, loops, imports, try/except, refused explicit close, stdio writes up to 1 MB on every stream, a raise at a generated statement, a park in receive) are rendered as source strings, functions in generated module files with kwargs of all serialisable types, and modules, and run on real gateways of every transport; a local interpretation predicts every item, the RemoteError must name the generated file and the exact line, the channel must be open while the body is parked and end exactly when it finishes, rejected function shapes must raise locally with nothing written and no channel id consumed.",
-            "Real workers; comprehensions/inner defs not generated. Worker stderr redirected to /dev/null.", "3/C06"),
+            "Real workers. Must-reject shapes include nine generated 'global read next to a same-named inner parameter / local / comprehension variable' forms; one of them is a known finding on Python >= 3.12. Worker stderr redirected to /dev/null.", "3/C06"),
     "C15": ("generated channel programs on every bootstrap path x isolated interpreters (-I -S, CPython 3.10-3.13) x execmodels with the C02 transcript oracle and remote preconditions; exhaustive sweep of the shipped sources' imports and free names",
-            "Generated conversation programs run on workers bootstrapped by import, python=, via an isolated forwarder, socket via an isolated host, the stand-alone socketserver.py under an isolated interpreter and a stub-ssh path, on every CPython present started with -I -S; each case first verifies remotely that execnet is not importable there, then applies the C02 transcript oracle and finally requires that no execnet module got loaded. A finite-domain sweep executes every import statement of the shipped sources in every isolated interpreter and resolves every global name used in functions of the bootstrap source.",
+            "Generated conversation programs run on workers bootstrapped by import, python=, via an isolated forwarder, socket via an isolated host, the stand-alone socketserver.py under an isolated interpreter and a stub-ssh path, on every CPython present started with -I -S; each case first verifies remotely that execnet is not importable there, then compares the threads in which three consecutive bodies run with the import-bootstrapped reference, applies the C02 transcript oracle and finally requires that no execnet module got loaded; pipe-fed paths are also run with ascii / latin-1 standard streams on the remote interpreter. A finite-domain sweep executes every import statement of the shipped sources in every isolated interpreter and resolves every global name used in functions of the bootstrap source.",
             "ssh only through a local stub; vagrant not exercised; gevent/eventlet unavailable without site-packages. The static part is an exhaustive enumeration, reported as such.", "3/C15"),
     "C16": ("differential testing across transports: the same generated channel program on popen (reference), python=, via and socket gateways for thread / main_thread_only / gevent workers; per-run transcript oracle plus equality of normalised transcripts",
-            "Generated schedule-independent channel programs (typed payloads up to 300 KB / 8 MB, sub-channels, callbacks, raising bodies and callbacks, close/end/raise stream ends) are run unchanged on a direct popen gateway and on the python=, via and socket transports for each remote execmodel; every run must satisfy its own transcript oracle and its normalised transcript must equal the reference transport's.",
+            "Generated schedule-independent channel programs (typed payloads up to 300 KB / 8 MB, sub-channels, callbacks, raising bodies and callbacks, close/end/raise stream ends) are run unchanged on a direct popen gateway and on the python=, via and socket transports for each remote execmodel; every run must satisfy its own transcript oracle and its normalised transcript must equal the reference transport's. Part exitdrain: gw.exit() while the body still sends - items and end observed afterwards must be the same on popen, via and socket.",
             "Real workers, OS schedule not owned; only schedule-independent programs are compared; racy send outcomes are normalised away. Control path (terminate/kill through a proxy) is covered by C05.", "3/C16"),
     "C17": ("model-based histories over generated file trees (source tree, prior target states, delete flag, 1-3 targets, caller cwd, modify-and-resync steps) on real gateways; independent tree-walker oracle and no-transfer oracle for re-syncs",
             "Generated source trees with awkward names, modes, mtimes and every symlink flavour are synced onto generated prior target states (incl. entries of another kind), with and without delete, to up to three targets, from four working directories, followed by generated modify/re-sync steps and a final re-sync; an independent snapshot walker checks kind, bytes, permission bits, mtimes, the symlink rule, deletion/preservation of foreign entries, and that an unchanged re-sync transfers and changes nothing.",
